@@ -22,8 +22,8 @@ func TestVerif_C12_Storage(t *testing.T) {
 		"generated worlds (<=6 namespaces on <=3 levels, some with their own shamir seal; sibling, multi-segment and equally named mounts of the recording backend / kv / auth type; remounts inside and across namespaces, unmount + re-use of the path, seal/unseal cycles) serving a request mix of hostile storage calls made by a backend on its req.Storage (.., absolute, //, encoded, other mounts' uuids and real keys, core keys, long), hostile data paths, kv, login, cubbyhole and foreign-token requests in every namespace spelling (header / path / split); every physical operation of a request is classified against the storage prefixes read from the running router and every response is scanned for data or names written through another mount; a request is non-trivial when its client-chosen key resolves outside the mount prefix, when it is served while a namespace is sealed, when it uses a token of another namespace, or when it follows a remount / path re-use")
 	defer r.Write(t)
 	r.Note("observation outside C12: a remount into another namespace (Core.moveStorage) does not terminate, holding mountsLock, when the mount's storage holds a key with an empty path segment (a//b, /a, a/), because listed names are re-joined with path.Join; the workload therefore moves only mounts that never stored such a key across namespaces")
-	topos := kit.N(10, 64)
-	reqs := kit.N(800, 2500)
+	topos := kit.N(10, 160)
+	reqs := kit.N(800, 4000)
 	for ti := 0; ti < topos; ti++ {
 		if ti%shards != shard {
 			continue
@@ -33,7 +33,7 @@ func TestVerif_C12_Storage(t *testing.T) {
 			continue
 		}
 		rng := kit.NewRand(seed, 0x12000+uint64(ti))
-		c12StorageCase(t, r, rng, caseID, ti%2 == 0, reqs)
+		c12StorageCase(t, r, rng, caseID, ti%2 == 0, ti%5 == 4, reqs)
 		if r.NViolations() > 30 {
 			break
 		}
@@ -50,6 +50,7 @@ func TestVerif_C12_Storage(t *testing.T) {
 	r.Require("requests_into_sealed_namespace", 5)
 	r.Require("foreign_token_requests", 10)
 	r.Require("worlds_with_equal_mount_paths_in_two_namespaces", 1)
+	r.Require("core_restarts", 1)
 }
 
 type c12StorageRun struct {
@@ -63,8 +64,11 @@ type c12StorageRun struct {
 	lastPrefix map[string]string
 }
 
-func c12StorageCase(t *testing.T, r *kit.Result, rng *kit.Rand, caseID string, transactional bool, reqs int) {
-	w := c12Build(t, r, rng, caseID, transactional)
+func c12StorageCase(t *testing.T, r *kit.Result, rng *kit.Rand, caseID string, transactional, cache bool, reqs int) {
+	w := c12Build(t, r, rng, caseID, transactional, cache)
+	if cache {
+		r.Count("worlds_with_physical_cache", 1)
+	}
 	defer w.v.Close()
 	s := &c12StorageRun{c12World: w, all: map[*c12NS]*c12Tok{}}
 	for _, n := range w.nss {
@@ -544,7 +548,23 @@ func (s *c12StorageRun) mutate() {
 			open = append(open, n)
 		}
 	}
-	switch s.rng.Intn(7) {
+	switch s.rng.Intn(8) {
+	case 7: // restart of the core: mount tables, views and namespaces are rebuilt from storage
+		if s.sealedNS != nil || !s.rng.Chance(1, 2) {
+			return
+		}
+		before := map[*c12Mount]string{}
+		for _, m := range s.liveMounts(nil) {
+			before[m] = m.Prefix
+		}
+		if s.restartCore() {
+			s.afterMut = 12
+			for m, p := range before {
+				if !m.Dead && !m.NS.effSealed() && m.Prefix != p {
+					s.r.Count("mount_prefix_changed_by_restart", 1)
+				}
+			}
+		}
 	case 0, 1: // mount, preferring a path that held a mount before
 		n := open[s.rng.Intn(len(open))]
 		p, auth := c12MountPaths[s.rng.Intn(len(c12MountPaths))], false
